@@ -50,6 +50,7 @@ pub fn run_one(tr: &RunTrace, opts: &RunOpts) -> RunReport {
     HEAP_FILL.store(tr.knobs.heap as u8, Ordering::Relaxed);
     GUARD_MODE.store(tr.knobs.guard as u8, Ordering::Relaxed);
     let guarded_before = GUARDED_BLOCKS.load(Ordering::Relaxed);
+    let heap_before = (crate::faults::DOUBLE_FREES.load(Ordering::Relaxed), crate::faults::WRITES_AFTER_FREE.load(Ordering::Relaxed), crate::faults::RECYCLED_BLOCKS.load(Ordering::Relaxed));
 
     let world = Arc::new(World::new(tr.knobs.slots as usize, tr.knobs.repeat != 0));
     {
@@ -241,6 +242,14 @@ pub fn run_one(tr: &RunTrace, opts: &RunOpts) -> RunReport {
     }
     HEAP_FILL.store(0, Ordering::Relaxed);
     GUARD_MODE.store(0, Ordering::Relaxed);
+    crate::faults::recycle_flush();
+    let (dfree, waf) = (crate::faults::DOUBLE_FREES.load(Ordering::Relaxed) - heap_before.0, crate::faults::WRITES_AFTER_FREE.load(Ordering::Relaxed) - heap_before.1);
+    if dfree > 0 {
+        world.violate("I1", "C07", "I1:heap:double-free".into(), format!("{dfree} block(s) were freed while already free (the simulator's allocator was parking freed blocks for reuse in this run): some owner released storage that was no longer its own"), 0, PRE_TID);
+    }
+    if waf > 0 {
+        world.violate("I1", "C07", "I1:heap:write-after-free".into(), format!("{waf} freed block(s) no longer held the allocator's free pattern when they were handed out again: something wrote through a pointer to storage it had released"), 0, PRE_TID);
+    }
 
     let after = snapshot_fault_counters();
     if after[4] > before[4] {
@@ -284,7 +293,9 @@ pub fn run_one(tr: &RunTrace, opts: &RunOpts) -> RunReport {
     c.insert("fault_logger_disabled", after[6] - before[6]);
     c.insert("fault_heap_fill_blocks", after[5] - before[5]);
     c.insert("fault_guard_page_blocks", GUARDED_BLOCKS.load(Ordering::Relaxed) - guarded_before);
-    c.insert("runs_with_guard_pages", u64::from(tr.knobs.guard != 0));
+    c.insert("runs_with_guard_pages", u64::from(matches!(tr.knobs.guard, 1 | 2)));
+    c.insert("fault_recycled_blocks", crate::faults::RECYCLED_BLOCKS.load(Ordering::Relaxed) - heap_before.2);
+    c.insert("runs_with_eager_block_reuse", u64::from(tr.knobs.guard == 3));
     c.insert("fault_preempt_inside_call", sched_report.inner_switches);
     c.insert("sched_yield_points", sched_report.yields);
     c.insert("sched_switches", sched_report.switches);
